@@ -1,7 +1,7 @@
 """Shared ODX fragments for layer hierarchies (C09, C15, C10): comparam subset / spec documents."""
 
 SIMPLE_CPS = [("CP_Baudrate", "500000"), ("CP_CanFuncReqId", "2015"), ("CP_TesterPresentTime", "2000000"),
-              ("CP_DoIPLogicalTesterAddress", "3584"), ("CP_CANFDBaudrate", "2000000"), ("CP_CANFDTxMaxDataLength", "TX_DL=8")]
+              ("CP_DoIPLogicalTesterAddress", "3584"), ("CP_CANFDBaudrate", "2000000"), ("CP_CANFDTxMaxDataLength", "TX_DL=64 CANFD")]
 NESTED = object()
 # (subset, name, sub-parameters); a nested COMPLEX-COMPARAM sits between the simple sub-parameters
 COMPLEX_CPS = [("CPSUB", "CP_UniqueRespIdTable", [("CP_CanPhysReqId", "2016"), ("CP_ExtAddrInfo", NESTED), ("CP_CanRespUSDTId", "2024")]),
